@@ -47,6 +47,7 @@ function p.%(fn)s(frame)
     .. "\29L" .. #frame:preprocess(%(frag)s)
     .. "\29E" .. frame:expandTemplate{title = "T1", args = {%(s1)s, x = %(s2)s}}
     .. "\29F" .. frame:callParserFunction("#if", %(s1)s, %(s2)s, "n")
+    .. "\29G" .. frame:callParserFunction("#ifeq", %(s1)s, "", "same", "diff")
     .. "\29"
 end
 """
@@ -116,6 +117,7 @@ def chunk_fn(chunk):
                     ob["m_pre"] = ctx.expand(tr.render(c["frag"]))
                     ob["m_et"] = ctx.expand("{{T1|1=" + tr.text(c["s1"]) + "|x=" + tr.text(c["s2"]) + "}}")
                     ob["m_pf"] = ctx.expand("{{#if:" + tr.text(c["s1"]) + "|" + tr.text(c["s2"]) + "|n}}")
+                    ob["m_pf2"] = ctx.expand("{{#ifeq:" + tr.text(c["s1"]) + "||same|diff}}")
                 except Exception as e:  # noqa: BLE001
                     ob["exc"] = repr(e)
                 out.append(ob)
@@ -133,10 +135,10 @@ def judge(o: Outcome, c, e, ob):
     raw = ob["raw"]
     pre, post = ("<", ">") if c["depth"] > 0 else ("", "")
     parts = raw.split(SEP)
-    if len(parts) != 11 or parts[0] != pre or parts[10] != post:
+    if len(parts) != 12 or parts[0] != pre or parts[11] != post:
         o.violation({**case, "got": raw[:400]}, "the string returned by the module does not replace the #invoke call verbatim", cls="envelope")
         return
-    got = {p[0]: p[1:] for p in parts[1:10]}
+    got = {p[0]: p[1:] for p in parts[1:11]}
     exp_args = amap(e["args"])
     a1v, a2v = exp_args.get(1), exp_args.get(2)
     pexp = amap(e["pargs"]) if e["hasParent"] else {}
@@ -149,6 +151,7 @@ def judge(o: Outcome, c, e, ob):
         ("frame:preprocess", got["R"], tr.text(e["pre"]), ob["m_pre"]),
         ("frame:expandTemplate", got["E"], tr.text(e["et"]), ob["m_et"]),
         ("frame:callParserFunction", got["F"], tr.text(e["pf"]), ob["m_pf"]),
+        ("frame:callParserFunction with an empty argument", got["G"], tr.text(e["pf2"]), ob["m_pf2"]),
     ]
     # what the module holds is what it returns: the byte lengths measured inside Lua equal those of the
     # returned text (an internal placeholder standing for markup would be shorter / longer)
